@@ -380,23 +380,41 @@ impl ASN1Type {
         &mut self,
         tlds: &BTreeMap<String, ToplevelDefinition>,
     ) -> bool {
+        self.link_components_of_notation_of(tlds, &mut Vec::new())
+    }
+
+    /// Expanding consumes the `components_of` entries, so a type that still lists some has not
+    /// been expanded yet. `including` holds the names of the types that are being expanded
+    /// further up: a type that includes itself through others is not expanded without end.
+    fn link_components_of_notation_of(
+        &mut self,
+        tlds: &BTreeMap<String, ToplevelDefinition>,
+        including: &mut Vec<String>,
+    ) -> bool {
         match self {
-            ASN1Type::Choice(c) => c
-                .options
-                .iter_mut()
-                .any(|o| o.ty.link_components_of_notation(tlds)),
+            ASN1Type::Choice(c) => c.options.iter_mut().fold(false, |linked, o| {
+                o.ty.link_components_of_notation_of(tlds, including) || linked
+            }),
             ASN1Type::Set(s) | ASN1Type::Sequence(s) => {
-                let mut member_linking = s
-                    .members
-                    .iter_mut()
-                    .any(|m| m.ty.link_components_of_notation(tlds));
+                let mut member_linking = s.members.iter_mut().fold(false, |linked, m| {
+                    m.ty.link_components_of_notation_of(tlds, including) || linked
+                });
                 // TODO: properly link components of in extensions
                 // TODO: link components of Class field, such as COMPONENTS OF BILATERAL.&id
-                for comp_link in &s.components_of {
-                    if let Some(ToplevelDefinition::Type(linked)) = tlds.get(comp_link) {
+                for comp_link in std::mem::take(&mut s.components_of) {
+                    if including.contains(&comp_link) {
+                        continue;
+                    }
+                    if let Some(ToplevelDefinition::Type(linked)) = tlds.get(&comp_link) {
+                        // the included type may use COMPONENTS OF itself and may come later in
+                        // the linking order: what it includes is part of what it contributes
+                        let mut linked_ty = linked.ty.clone();
+                        including.push(comp_link);
+                        linked_ty.link_components_of_notation_of(tlds, including);
+                        including.pop();
                         // (a SET includes the components of a SET type)
                         if let ASN1Type::Sequence(linked_seq) | ASN1Type::Set(linked_seq) =
-                            &linked.ty
+                            &linked_ty
                         {
                             linked_seq
                                 .members
@@ -416,7 +434,9 @@ impl ASN1Type {
                 }
                 member_linking
             }
-            ASN1Type::SequenceOf(so) => so.element_type.link_components_of_notation(tlds),
+            ASN1Type::SequenceOf(so) => so
+                .element_type
+                .link_components_of_notation_of(tlds, including),
             _ => false,
         }
     }
